@@ -1,0 +1,71 @@
+// Copyright 2024 RunReveal Inc.
+// SPDX-License-Identifier: Apache-2.0
+
+//go:build verif
+
+package pql
+
+import (
+	"fmt"
+
+	"github.com/runreveal/pql/parser"
+)
+
+// Instrumentation hooks that exist only in builds with the "verif" tag.
+// They must be set before any other function of this package is called.
+var (
+	// VerifHook is called with a site number
+	// every time an instrumented loop body or function is entered.
+	VerifHook func(site int)
+	// VerifSplitHook observes every decision of the subquery split algorithm:
+	// the state of the subquery built so far (nil operator: prevOp == "")
+	// the operator being placed, and whether it was attached to that subquery
+	// (attached) or opened a new one.
+	VerifSplitHook func(prevOp string, prevSorted, prevLimited bool, op string, attached bool)
+	// VerifPauseHook is called at points where concurrent calls could interfere:
+	// site 1 is inside the lazy initialization of the function table,
+	// site 2 is in Compile between copying the parameters and using the scope.
+	VerifPauseHook func(site int)
+)
+
+func verifSite(site int) {
+	if h := VerifHook; h != nil {
+		h(site)
+	}
+}
+
+func verifPause(site int) {
+	if h := VerifPauseHook; h != nil {
+		h(site)
+	}
+}
+
+type verifSplitState struct {
+	prevOp                  string
+	prevSorted, prevLimited bool
+	op                      string
+	n                       int
+}
+
+func verifSplit(last *subquery, op parser.TabularOperator, n int) verifSplitState {
+	if VerifSplitHook == nil {
+		return verifSplitState{}
+	}
+	st := verifSplitState{op: fmt.Sprintf("%T", op), n: n}
+	if last != nil {
+		if last.op != nil {
+			st.prevOp = fmt.Sprintf("%T", last.op)
+		} else {
+			st.prevOp = "nil"
+		}
+		st.prevSorted = last.sort != nil
+		st.prevLimited = last.take != nil
+	}
+	return st
+}
+
+func verifSplitDone(st verifSplitState, n int) {
+	if h := VerifSplitHook; h != nil {
+		h(st.prevOp, st.prevSorted, st.prevLimited, st.op, n == st.n)
+	}
+}
